@@ -139,6 +139,73 @@ Proof.
   - destruct G as (G1 & G2 & G3). split; [exact G1|]. split; [exact (ext_trans _ _ _ E0 G2)|exact G3].
 Qed.
 
+(* ---------------------------------------------------------------- the unique-index lookup *)
+Lemma index_rows_In s k u id r : In (id, r) (index_rows s k u) ->
+  In (id, r) (t_rows (tbl s k)) /\ val_eqb (nth 1%nat r VNull) (VInt u) = true.
+Proof. unfold index_rows. intros Hi. apply filter_In in Hi. exact Hi. Qed.
+
+(* what a successful lookup did: ONE row matched, and the object is what get(id, that row) hands out *)
+Definition index_ok (k : kind) (u : Z) (s : st) (x : nat) (s' : st) : Prop :=
+  exists id r, index_rows s k u = [(id, r)] /\ get_ok cfg m k id [] s x s'.
+
+Lemma select_rows_ids k rows : forall acc s objs s',
+  select_rows cfg k rows acc s = (Ret objs, s') ->
+  exists news, objs = acc ++ news /\ length news = length rows.
+Proof.
+  induction rows as [|[id r] rest IH]; intros acc s objs s' E; cbn [select_rows] in E.
+  - unfold ret in E. inversion E; subst. exists []. split; [now rewrite app_nil_r|reflexivity].
+  - unfold bind at 1 in E. destruct (so_get cfg k id (Some r) acc s) as [[o|e] s1]; [|discriminate].
+    destruct (IH _ _ _ _ E) as (news & En & Hl). exists (o :: news). split; [rewrite En, <- app_assoc; reflexivity|cbn; now rewrite Hl].
+Qed.
+
+Lemma so_index_spec k u s :
+  I s ->
+  match so_index cfg k u s with
+  | (Ret (Some x), s') => index_ok k u s x s'
+  | (Ret None, s') => False
+  | (Raise _, s') => I s' /\ ext s s' /\ tables s' = tables s
+  end.
+Proof.
+  intros H. unfold so_index.
+  unfold bind at 1. destruct (statement_run (SSelect k) s) as (l0 & [Es|Es]); rewrite Es.
+  2:{ split; [apply Inv_log; exact H|]. split; [apply ext_core; reflexivity|reflexivity]. }
+  set (s0 := with_log s _).
+  assert (H0 : I s0) by (apply Inv_log; exact H).
+  assert (E0 : ext s s0) by (apply ext_core; reflexivity).
+  unfold bind at 1, gets. cbn [fst snd].
+  change (index_rows s0 k u) with (index_rows s k u).
+  unfold index_ok.
+  destruct (index_rows s k u) as [|[id0 r0] [|row2 more]] eqn:Er.
+  - (* no row: not-found *)
+    cbn [select_rows]. unfold bind at 1, ret, raise. split; [exact H0|]. split; [exact E0|reflexivity].
+  - (* one row *)
+    cbn [select_rows]. unfold bind at 1. unfold bind at 1.
+    assert (Hi : In (id0, r0) (index_rows s k u)) by (rewrite Er; left; reflexivity).
+    apply index_rows_In in Hi. destruct Hi as (Hi & _).
+    pose proof (so_get_spec cfg m k id0 (Some r0) [] s0 H0) as G.
+    assert (Hr : forall r', Some r0 = Some r' -> assoc id0 (t_rows (tbl s0 k)) = Some r').
+    { intros r' E. inversion E; subst. apply (table_row cfg m s0 k id0 r' H0 Hi). }
+    specialize (G Hr).
+    destruct (so_get cfg k id0 (Some r0) [] s0) as [[o|e] s1].
+    + unfold ret. cbn [app]. exists id0, r0. split; [reflexivity|].
+      destruct G as (G1 & G2 & G3 & G4). split; [exact G1|]. split; [exact (ext_trans _ _ _ E0 G2)|]. split; [exact G3|exact G4].
+    + destruct G as (G1 & G2 & G3). split; [exact G1|]. split; [exact (ext_trans _ _ _ E0 G2)|exact G3].
+  - (* several rows (impossible under the UNIQUE constraint; the code would raise an integrity error) *)
+    set (rows := (id0, r0) :: row2 :: more).
+    assert (Hrows : forall id r, In (id, r) rows -> assoc id (t_rows (tbl s0 k)) = Some r).
+    { intros id r Hi. unfold rows in Hi. rewrite <- Er in Hi. apply index_rows_In in Hi. destruct Hi as (Hi & _).
+      apply (table_row cfg m s0 k id r H0 Hi). }
+    unfold bind at 1.
+    pose proof (select_rows_spec cfg m k rows [] s0 H0 Hrows) as S.
+    pose proof (select_rows_ids k rows [] s0) as L.
+    destruct (select_rows cfg k rows [] s0) as [[objs|e] s1].
+    2:{ destruct S as (S1 & S2 & S3). split; [exact S1|]. split; [exact (ext_trans _ _ _ E0 S2)|exact S3]. }
+    destruct S as (S1 & S2 & S3 & _).
+    destruct (L objs s1 eq_refl) as (news & En & Hl). cbn in En. subst news.
+    destruct objs as [|x [|y rest]]; [discriminate Hl|discriminate Hl|].
+    unfold raise. split; [eapply Inv_roots_weaken; [exact S1|intros z []]|]. split; [exact (ext_trans _ _ _ E0 S2)|exact S3].
+Qed.
+
 (* ---------------------------------------------------------------- run_path keeps the invariant *)
 Lemma handle_run h s : (exists o, handle h s = (Ret o, s) /\ nth h (slots s) None = Some o) \/ handle h s = (Raise EBadHandle, s).
 Proof.
@@ -147,7 +214,7 @@ Qed.
 
 Lemma run_path_spec p s : I s -> match run_path cfg p s with (_, s') => I s' end.
 Proof.
-  intros H. destruct p as [h k'|h k' keep]; cbn [run_path].
+  intros H. destruct p as [h k'|h k' keep|k u]; cbn [run_path].
   - unfold hold_opt. unfold bind at 1.
     destruct (handle_run h s) as [(o & Eh & Hn)|Eh]; rewrite Eh; [|now apply Inv_slot_none].
     pose proof (so_fk_spec o k' s H (nth_some_In _ _ _ Hn)) as F.
@@ -172,6 +239,12 @@ Proof.
         inversion Hx; subst. left. left. exact En.
       * apply Inv_slot_none. eapply Inv_roots_weaken; [exact S1|intros x []].
     + unfold ret. eapply Inv_roots_weaken; [exact S1|intros x []].
+  - unfold hold_opt.
+    pose proof (so_index_spec k u s H) as F.
+    destruct (so_index cfg k u s) as [[[x|]|e] s1].
+    + destruct F as (id & r & _ & (G1 & _ & _ & _ & G5 & _)). now apply hold_spec.
+    + destruct F.
+    + destruct F as (F1 & _). now apply Inv_slot_none.
 Qed.
 
 Theorem pstep_Inv s o : I s -> pgop m o = true -> I (snd (pstep cfg s o)).
